@@ -991,6 +991,23 @@ func (e *engine) Execute(raw json.RawMessage) (vd harness.Verdict) {
 			return
 		}
 	}
+	// The end of the text delimits a token like white space does: a text that
+	// reads as objects and the same text with a line end appended - which
+	// reads as objects too - denote the same objects. (An absolute rule, like
+	// the truncation rule above: the differential oracle cannot see a token
+	// that every front end drops. Found on the unchanged tree: a bit vector
+	// as the last token of a text, "a #*10", was silently left out.)
+	if ref := refs["ReadStream"]; ref.kind == "objects" && c.Pin == nil {
+		s := scopeFor(&c)
+		padded := capture(func() ([]slip.Object, int) {
+			return slip.ReadString(string(c.Text)+"\n", s), 0
+		})
+		vd.Probes["eof_delimiter_compared"]++
+		if padded.kind == "objects" && !sameObjects(ref, padded) {
+			vd.V = viol("eof-delimiter", "the text %q reads as %v, with a line end appended as %v: the end of the text does not delimit its last token", c.Show, ref.objs, padded.objs)
+			return
+		}
+	}
 	canRef := canary(&c, 0)
 	textHash := fnv.New64a()
 	_, _ = textHash.Write(c.Text)
@@ -1014,7 +1031,10 @@ func (e *engine) Execute(raw json.RawMessage) (vd harness.Verdict) {
 			// zero-length reads, data delivered together with EOF, texts cut
 			// inside a form. Each read is preceded by a peek-char, so the
 			// stream's one-character push-back is exercised twice over.
-			if p.ErrAfter >= 0 || strings.ContainsAny(string(c.Text), "\\|#,") {
+			// (Until fix "a text that ends after an escape character ... is
+			// reported as incomplete" this front ran only on texts without
+			// the escape character, the bar, # and the comma.)
+			if p.ErrAfter >= 0 {
 				return nil
 			}
 		}
